@@ -245,7 +245,11 @@ func (e *enc) pkgObject(pk *types.Package, name string, env *Env) SVal {
 			if g, ok := sp.Members[name].(*ssa.Global); ok {
 				addr := e.val(g)
 				t := o.Type()
-				return SVal{t: e.loadValue(env.st, addr, t), typ: t, sort: sortOf(t)}
+				lst := env.st
+				if e.p.immutableGlobal(g) && e.entry != nil {
+					lst = e.entry
+				}
+				return SVal{t: e.loadValue(lst, addr, t), typ: t, sort: sortOf(t)}
 			}
 		}
 	}
